@@ -308,8 +308,29 @@ class Body:
             self._defs = d
         return self._defs
 
-    def whole_defs(self, local):
-        """Definitions that assign the whole local (no projection on the lhs)."""
+    def whole_defs(self, local, dedupe=True):
+        """Definitions that assign the whole local (no projection on the lhs). Jump threading (flat.py) duplicates
+        blocks: textually identical assignments of the same rvalue count once."""
+        key = (local, dedupe)
+        cache = self.__dict__.setdefault("_wd_cache", {})
+        if key in cache:
+            return cache[key]
+        out = self._whole_defs_raw(local)
+        if dedupe and len(out) > 1 and self.fn.get("flat"):
+            uniq, sigs = [], set()
+            for d in out:
+                if d[0] == "stmt":
+                    rv = d[3]["rv"]
+                    sig = ("stmt", _rv_sig(rv))
+                    if rv["k"] in ("use", "ref", "cast", "discr") and sig in sigs:
+                        continue
+                    sigs.add(sig)
+                uniq.append(d)
+            out = uniq
+        cache[key] = out
+        return out
+
+    def _whole_defs_raw(self, local):
         out = []
         for d in self.defs.get(local, []):
             if d[0] == "stmt":
@@ -585,26 +606,57 @@ class Body:
                     out |= interproc(t, depth)
         return out
 
-    def _variant_literal_ops(self, local, projs):
-        """projs = [downcast V, field i, rest...] and every definition of `local` is an enum literal: returns
-        ([operand i of each literal of variant V], rest); None otherwise."""
-        if len(projs) < 2 or not (isinstance(projs[0], dict) and "dc" in projs[0] and isinstance(projs[1], dict) and "f" in projs[1]):
+    def _literal_defs(self, local, depth=0, seen=None):
+        """What the local may hold, following whole moves (`x = move y`): list of enum-literal aggregate rvalues and of
+        ('opaque', local) entries for values that are not literals (a call result, a parameter, a projection);
+        None when nothing is known."""
+        seen = seen if seen is not None else set()
+        if local in seen:
+            return []           # already counted (jump threading duplicates `x = move y`)
+        if depth > 8:
             return None
-        ds = self.defs.get(local, [])
-        if not ds or local <= self.fn["arg_count"]:
-            return None
-        ops_ = []
+        seen.add(local)
+        ds = self.defs.get(local, []) if local > self.fn["arg_count"] else []
+        if not ds:
+            return [("opaque", local)]
+        out = []
         for d in ds:
             if d[0] != "stmt" or d[3]["lhs"]["p"]:
-                return None
+                return [("opaque", local)]
             rv = d[3]["rv"]
-            if rv["k"] != "agg" or rv.get("what") != "adt" or "variant" not in rv:
-                return None
-            if rv["variant"] == projs[0]["dc"] and projs[1]["f"] < len(rv["ops"]):
+            if rv["k"] == "agg" and rv.get("what") == "adt" and "variant" in rv:
+                out.append(rv)
+            elif rv["k"] == "use" and rv["op"].get("k") in ("move", "copy") and not [p for p in rv["op"]["pl"]["p"] if p != "deref"]:
+                sub = self._literal_defs(rv["op"]["pl"]["l"], depth + 1, seen)
+                if sub is None:
+                    return None
+                out += sub
+            else:
+                return [("opaque", local)]
+        return out
+
+    def _variant_literal_ops(self, local, projs):
+        """projs = [downcast V, field i, rest...]: if at least one definition of `local` (followed through whole moves)
+        is an enum literal, the operands the projection can denote: operand i of every literal of variant V, and the
+        projection itself applied to every non-literal value that flows in. Returns (operands, rest) or None."""
+        if len(projs) < 2 or not (isinstance(projs[0], dict) and "dc" in projs[0] and isinstance(projs[1], dict) and "f" in projs[1]):
+            return None
+        lits = self._literal_defs(local)
+        if not lits or not any(isinstance(x, dict) for x in lits):
+            return None
+        ops_ = []
+        for rv in lits:
+            if isinstance(rv, tuple):
+                if rv[1] == local:
+                    return None
+                o = {"k": "copy", "pl": {"l": rv[1], "p": [projs[0], projs[1]]}}
+            elif rv["variant"] == projs[0]["dc"] and projs[1]["f"] < len(rv["ops"]):
                 o = rv["ops"][projs[1]["f"]]
-                # jump threading duplicates blocks: the same literal operand counted once
-                if not any(_same_operand(o, x) for x in ops_):
-                    ops_.append(o)
+            else:
+                continue
+            # jump threading duplicates blocks: the same literal operand counted once
+            if not any(_same_operand(o, x) for x in ops_):
+                ops_.append(o)
         return ops_, projs[2:]
 
     def rv_atoms(self, rv, depth=0, _seen=None, interproc=None):
@@ -880,6 +932,21 @@ class Body:
     def site(self, bb):
         src = self.blocks[bb].get("src")
         return "%s:%s" % (src["file"] if src else self.fn["file"], self.line_of(bb))
+
+
+def _rv_sig(rv):
+    def osig(o):
+        if o is None:
+            return None
+        if o.get("k") == "const":
+            return ("c", str(o.get("val")), str((o.get("uneval") or {}).get("def")))
+        return ("p", _place_key(o["pl"]))
+    k = rv["k"]
+    if k in ("use", "cast"):
+        return (k, rv.get("ty"), osig(rv["op"]))
+    if k in ("ref", "discr"):
+        return (k, _place_key(rv["pl"]))
+    return (k, id(rv))
 
 
 def _same_operand(a, b):
